@@ -426,7 +426,7 @@ Proof.
   split.
   { cbn [dapp d_moved]. rewrite (DC_moved kvs1 Sub ND1) by (intros k v1 v2 Hin A; apply (HGD k v1 v2 Hin A)).
     unfold to_delta. cbn [d_moved]. rewrite !flat_map_map_nil by reflexivity. reflexivity. }
-  intros vb Wvb Vvb. destruct vb as [| | |kvsb| |]; try (cbn in Vvb; discriminate Vvb).
+  intros vb Wvb Vvb OB. destruct vb as [| | |kvsb| |]; try (cbn in Vvb; discriminate Vvb).
   cbn [wf] in Wvb. apply andb_true_iff in Wvb as [Nb Wb].
   pose proof (veqb_dict_keys kvsb kvs1 Vvb ND1) as PKb.
   assert (VB : forall k vv, In (k, vv) kvsb -> exists v1, In (k, v1) kvs1 /\ veqb vv v1 = true).
@@ -545,7 +545,7 @@ Proof.
     assert (EP : finish (irun (restrictL k q9) (irun (restrictL k c8) (run_passes (restrictP k [c1; c2; c3; c4; c5; q6; q7]) (S0b kvsb k))))
                  = finish (run_passes (restrictP k P) (mkSt vv [] 0))).
     { rewrite ES. unfold P, restrictP, DeltaRun.run_passes. cbn [map fold_left]. rewrite restrictL_app, EA. reflexivity. }
-    rewrite EP. destruct (HGD k v1 v2 Hin A) as [_ HRT]. apply (HRT vv Wvv Vvv).
+    rewrite EP. destruct (HGD k v1 v2 Hin A) as [_ HRT]. apply (HRT vv Wvv Vvv (okb_dict_in conv bidir always kvsb kvs1 kvs2 OB k v1 v2 vv Hin A Ab)).
     rewrite <- (Sa k v1 v2 Hin A).
     pose proof (Arr_restrict k _ _ HA0) as AR. unfold restrictP, P in AR. cbn [map] in AR.
     rewrite !restrictL_app, EA in AR. fold R9 in AR. rewrite ER in AR. cbn [app] in AR.
